@@ -347,6 +347,58 @@ def system(S, levelvec, matrix, m, regularised):
         S.prove(res <= 1e-7 * scale, 'system:surpluses-are-the-solver-output')
 
 
+def system_retrain(S, levelvec, matrix, m):
+    """The same Regression object solves the same component grid a second time after the training targets and lambda have changed (a second
+    train() call with another split / noise / regularisation): the second surpluses solve the SECOND system."""
+    from sparseSpACE.ComponentGridInfo import ComponentGridInfo
+    d = len(levelvec)
+    lam1 = S.real('lambda')
+    S.assume(lam1 > 0)
+    reg, xs, ys = _make(S, d, lam1, matrix, m)
+    rec = None
+    if S.lifted:
+        rec = RecordingLstsq(S)
+        _install_lstsq(S, rec)
+    cg = ComponentGridInfo(tuple(levelvec), 1)
+    real_lstsq, nsolves = np.linalg.lstsq, [0]
+    if not S.lifted:
+        def counting(*a, **k):  # concrete runs: the real numpy.linalg.lstsq, counted
+            nsolves[0] += 1
+            return real_lstsq(*a, **k)
+        np.linalg.lstsq = counting
+    try:
+        reg.evaluate_levelvec(cg)
+        ys2 = [S.real('z%d' % s) for s in range(m)]
+        lam2 = S.real('lambda2')
+        S.assume(lam2 > 0)
+        reg.target_values = _arr(S, ys2)
+        reg.training_target_values = reg.target_values
+        reg.regularization = lam2
+        alphas = reg.evaluate_levelvec(cg)
+    finally:
+        np.linalg.lstsq = real_lstsq
+    idx = list(itertools.product(*[range(1, 2 ** l) for l in levelvec]))
+    n = len(idx)
+    A = [[_ref_hat(levelvec, iv, xs[s], S.lifted) for iv in idx] for s in range(m)]
+    M = np.identity(n) if matrix == 'I' else reg.build_C_matrix(list(levelvec))
+    if S.lifted:
+        S.prove(len(rec.calls) == 2, 'retrain:one-solve-per-training')
+        a, b, x = rec.calls[-1]
+        S.prove(sym_and(*[alphas[i] == x[i] for i in range(n)]), 'retrain:surpluses-are-the-output-of-the-second-solve')
+        _system_goals(S, 'retrain', A, ys2, lam2, M, a, b, m)
+    else:
+        At = [[A[s][i] for s in range(m)] for i in range(n)]
+        AtA = _matmul_ref(At, A)
+        res = 0.0
+        for i in range(n):
+            lhs = sum((AtA[i][j] / m + lam2 * M[i][j]) * float(alphas[j]) for j in range(n))
+            rhs = sum(At[i][s] * ys2[s] for s in range(m)) / m
+            res = max(res, abs(lhs - rhs))
+        scale = max(1.0, max(abs(float(y)) for y in ys2))
+        S.prove(nsolves[0] == 2, 'retrain:one-solve-per-training')
+        S.prove(res <= 1e-7 * scale, 'retrain:surpluses-are-the-output-of-the-second-solve')
+
+
 def systemdw(S, npts, matrix, m, regularised):
     from sparseSpACE.ComponentGridInfo import ComponentGridInfo
     from sparseSpACE.RefinementContainer import RefinementContainer
@@ -500,6 +552,9 @@ def jobs(tier):
                     continue
                 js.append(Job('system[l=%s,%s,m=%d,%s]' % ('x'.join(map(str, lv)), mat, m, 'lambda>0' if reg else 'lambda=0'), system,
                               {'levelvec': list(lv), 'matrix': mat, 'm': m, 'regularised': reg}, **kw))
+    for lv, m in ([((2,), 2), ((2, 1), 2)] if q else [((2,), 2), ((3,), 2), ((2, 1), 2), ((2, 2), 2)]):
+        for mat in ('C', 'I'):
+            js.append(Job('system-retrain[l=%s,%s,m=%d]' % ('x'.join(map(str, lv)), mat, m), system_retrain, {'levelvec': list(lv), 'matrix': mat, 'm': m}, **kw))
     for npts, m in ([((2,), 2), ((3,), 2), ((2, 1), 2)] if q else [((2,), 2), ((3,), 3), ((5,), 2), ((2, 1), 2), ((3, 2), 2)]):
         for mat in ('C', 'I'):
             for reg in (True, False):
